@@ -157,7 +157,7 @@ def run(ctx):
 
     # ---- drive the real code
     trace_path = os.path.join(ctx.work, "trace.ndjson")
-    dupreps = (12, 2) if quick else (48, 6)
+    dupreps = (12, 2) if quick else (48, 3)
     summary = run_driver(ctx, beh_path, trace_path, n_random, params, only=only, dupreps=dupreps)
     ctx.notes["driver"] = summary
     traces = read_groups(trace_path)
@@ -193,6 +193,14 @@ def run(ctx):
     for sig in sorted(rejects):
         if sig.startswith("harness:"):
             raise HarnessError("trace spec could not classify driver input: %s %s" % (sig, rejects[sig][:3]))
+    # known findings are all confirmed; of the unknown signatures the three most frequent are enough for a verdict
+    unknown = sorted((s_ for s_ in rejects if not core.known_match(ctx.id, s_)), key=lambda s_: (-len(rejects[s_]), s_))
+    skipped = unknown[3:]
+    if skipped:
+        log("further deviating signatures not re-executed (a verdict needs only the first ones): %s" % skipped[:20])
+        ctx.notes["signatures_not_reexecuted"] = skipped
+    for s_ in skipped:
+        rejects.pop(s_)
     cands = {sig: sorted(set(v), key=lambda x: (-x[2], x[0], x[1]))[:3] for sig, v in rejects.items()}
     confirmed = {}
     for attempt in range(3):
@@ -223,13 +231,28 @@ def run(ctx):
             for tr in read_groups(rerun):
                 for ci, lines in tr["groups"]:
                     got[(tr["param"], ci)] = [tr["reset"]] + lines
+        # one TLC pass over all re-executed groups (trace numbers re-assigned 1..k to tell them apart)
+        batch, owner = [], {}
         for sig, (t, c, _) in todo:
             lines2 = got.get((by_t[t]["param"], c))
             if not lines2:
                 continue
-            tr2, rej2, p2 = classify(ctx, lines2, "confirm-%d" % len(confirmed))
-            if tr2.accepted and any(s == sig for _, _, s in rej2):
-                confirmed[sig] = (t, c, by_t[t]["param"], p2, c >= len(behs))
+            tn = len(owner) + 1
+            owner[tn] = (sig, t, c, lines2)
+            for x in lines2:
+                dd = json.loads(x)
+                dd["t"] = tn
+                batch.append(json.dumps(dd, separators=(",", ":")))
+        if not batch:
+            continue
+        tr2, rej2, p2 = classify(ctx, batch, "confirm-%d" % attempt)
+        if not tr2.accepted:
+            continue
+        for tn, (sig, t, c, lines2) in owner.items():
+            if any(a == tn and s2 == sig for a, _, s2 in rej2):
+                one = os.path.join(ctx.work, "reexecuted-%d-%d.ndjson" % (attempt, tn))
+                open(one, "w").write("\n".join(lines2) + "\n")
+                confirmed[sig] = (t, c, by_t[t]["param"], one, c >= len(behs))
     for sig in sorted(rejects):
         if sig not in confirmed:
             raise HarnessError("deviation %r did not reproduce on re-execution (candidates %s)" % (sig, cands[sig]))
